@@ -288,7 +288,7 @@ func TestVerif_C20(t *testing.T) {
 	defer b.Close()
 	const peerAddr = "http://peer.verif.invalid:8081"
 
-	run.Cases("fields", run.N(2500, 40000), func(ci int, rng *verifkit.Rand) {
+	run.Cases("fields", run.N(6000, 300000), func(ci int, rng *verifkit.Rand) {
 		enc := verifkit.Pick(rng, c20EventJSON, c20EventMsgp, c20BatchJSON, c20BatchMsgp)
 		route := verifkit.Pick(rng, "upstream", "peer", "collector")
 		nev := 1
